@@ -11,6 +11,7 @@ import (
 
 	"cosmossdk.io/math"
 	sdk "github.com/cosmos/cosmos-sdk/types"
+	authtypes "github.com/cosmos/cosmos-sdk/x/auth/types"
 	banktypes "github.com/cosmos/cosmos-sdk/x/bank/types"
 
 	opchildtypes "github.com/initia-labs/OPinit/x/opchild/types"
@@ -408,6 +409,24 @@ func (y *c08Sys) holdings(s *c08State) int64 {
 func (y *c08Sys) Check(s *c08State) *engine.Violation {
 	if v := y.equation(s); v != nil {
 		return v
+	}
+	// a balance can grow past one deposit (several deposits, transfers); a withdrawal of more than the
+	// 64-bit leaf format can carry must be refused on L2, because L1 could never release it
+	if alice := world.Addr("alice"); len(s.deps) > 0 && s.relayed > 0 && s.w2.BK.GetBalance(s.c2, alice, l2of("uxx")).IsPositive() {
+		for _, extra := range []int64{0, 9} {
+			amt := math.NewIntFromUint64(1 << 63).MulRaw(2).AddRaw(extra)
+			c2, _ := s.c2.CacheContext()
+			top := sdk.NewCoins(sdk.NewCoin(l2of("uxx"), amt))
+			if err := s.w2.BK.MintCoins(c2, authtypes.Minter, top); err != nil {
+				panic(err)
+			}
+			if err := s.w2.BK.SendCoinsFromModuleToAccount(c2, authtypes.Minter, alice, top); err != nil {
+				panic(err)
+			}
+			if res := s.w2.Deliver(c2, opchildtypes.NewMsgInitiateTokenWithdrawal(alice.String(), alice.String(), sdk.NewCoin(l2of("uxx"), amt))); res.OK() {
+				return tagged(viol("escrow-backs-supply-plus-in-flight", "L2 accepted (burnt and recorded) a withdrawal of 2^64+%d: the 64-bit leaf format cannot carry it, L1 can never release it", extra), "probe", "oversized-withdrawal")
+			}
+		}
 	}
 	if y.noDrain {
 		return nil
